@@ -61,7 +61,8 @@ Init ==
     /\ sfetch = [p \in Peer |-> {}] /\ queue = [p \in Peer |-> <<>>]
     /\ fetching = [r \in Repo |-> NoFetch] /\ tasks = <<>> /\ live = {} /\ applied = <<>> /\ hist = <<>>
 
-Log(op) == Len(hist) < MaxOps /\ hist' = Append(hist, op)
+\* MaxOps = 0: behaviours are not bounded and no history is kept (used for the liveness instance)
+Log(op) == IF MaxOps = 0 THEN UNCHANGED hist ELSE Len(hist) < MaxOps /\ hist' = Append(hist, op)
 
 \* ---- the service's internal steps, as functions on a state record --------------------------
 \* s = [sfetch, queue, fetching, tasks, live]
@@ -212,6 +213,18 @@ Next ==
     \/ Idle
 
 Spec == Init /\ [][Next]_vars
+
+\* Liveness (beyond the listed properties): the worker pool eventually finishes every task and the
+\* node keeps waking up; the environment (connections, commands) is not assumed fair.
+Fairness == /\ \A g \in 1..(MaxTasks + QueueMax * Cardinality(Peer)) : WF_vars(TaskDone(g))
+            /\ WF_vars(Idle)
+LiveSpec == Spec /\ Fairness
+
+\* No starvation: while its session stays connected, a fetch waiting in the session's queue is
+\* eventually taken out of the queue (started or found redundant).
+QueueDrains == \A p \in Peer : (Len(queue[p]) > 0 /\ st[p] = "connected") ~> (Len(queue[p]) = 0 \/ st[p] # "connected")
+\* Every fetch the service started is eventually completed or abandoned.
+TasksComplete == \A g \in 1..(MaxTasks + QueueMax * Cardinality(Peer)) : (g \in live) ~> (g \notin live)
 
 -----------------------------------------------------------------------------
 \* C16
